@@ -130,7 +130,7 @@ Qed.
 Lemma keeps_stop s w self t' s' o p : stop_if_parent_gone s w self t' = (s', o, p) -> keeps u t s s'.
 Proof.
   unfold stop_if_parent_gone. destruct (get s w) as [pa|]; [|intros H; inversion H; subst; apply keeps_refl].
-  destruct (st_ge_terminating (a_st pa)); [|intros H; inversion H; subst; apply keeps_refl].
+  destruct (not_alive (a_st pa)); [|intros H; inversion H; subst; apply keeps_refl].
   destruct (terminate s self t' (a_graceful pa)) as [s1 o1] eqn:E. intros H; inversion H; subst. eapply keeps_terminate; exact E.
 Qed.
 Lemma keeps_spawn s w self t' r s' o p : spawn s w self t' r = (s', o, p) -> keeps u t s s'.
